@@ -261,3 +261,11 @@ func rigJoinSections(session []string, sections [][]string) string {
 
 	return strings.Join(all, "\r\n") + "\r\n"
 }
+
+func firstN(s string, n int) string {
+	if len(s) > n {
+		return s[:n]
+	}
+
+	return s
+}
